@@ -164,7 +164,7 @@ class Normalizer(object):
     def norm(self, e, bound=()):
         e = sp.sympify(e)
         if isinstance(e, sp.Indexed):
-            return e.func(e.base, *[(self.norm(i, bound) if not i.is_Atom else i) for i in e.indices])
+            return e.func(e.base, *[(sp.expand(self.norm(i, bound)) if not i.is_Atom else i) for i in e.indices])
         if e.is_Atom:
             return e
         if isinstance(e, Lg):
@@ -225,9 +225,18 @@ class Normalizer(object):
             r = sp.cancel(t / den)
             if sp.fraction(r)[1] == 1:
                 q += r
-        rem = sp.expand(num - q * den)
-        if self.holds(sp.And(den > 0, rem >= 0, rem < den), bound):
-            return q
+        cands = [q]
+        for g in sorted(den.free_symbols, key=str):
+            try:
+                cq = sp.cancel(sp.expand(num).coeff(g) / sp.expand(den).coeff(g))
+                if sp.fraction(cq)[1] == 1 and cq not in cands:
+                    cands.append(sp.expand(cq))
+            except Exception:     # pragma: no cover
+                pass
+        for qq in cands:
+            rem = sp.expand(num - qq * den)
+            if self.holds(sp.And(den > 0, rem >= 0, rem < den), bound):
+                return qq
         return sp.floor(a)
 
     def resolve_pw(self, e, bound):
